@@ -1273,6 +1273,7 @@ func planT7Desel(rg *rand.Rand) (cfgT, runFn) {
 		time.Sleep(time.Until(t0.Add(d)))
 		if e.state() != 2 || p.isDead() {
 			e.sample("t7desel-before-deselect")
+			tags = append(tags, "t7desel:verdict")
 			e.failf("check5: a session selected through the responder path was disconnected before the peer deselected it (T7 armed at TCP-up)")
 			return hdr, tags
 		}
@@ -1284,6 +1285,7 @@ func planT7Desel(rg *rand.Rand) (cfgT, runFn) {
 		if !e.waitState(1, stepWait) {
 			if e.state() == 0 {
 				e.note("NotConnected %v after the Deselect.req", time.Since(tD))
+				tags = append(tags, "t7desel:verdict")
 				e.failf("timer: a deselected session (NotSelected on the same TCP connection) was disconnected before T7 had elapsed since the Deselect.req")
 			} else {
 				e.anomaly("not NotSelected after Deselect.rsp(0)")
@@ -1297,6 +1299,7 @@ func planT7Desel(rg *rand.Rand) (cfgT, runFn) {
 			if st != 0 {
 				if el := time.Since(tD); p.isDead() && el < cfg.t7 {
 					e.note("link closed %v after the Deselect.req", el)
+					tags = append(tags, "t7desel:verdict")
 					e.failf("timer: a deselected session (NotSelected on the same TCP connection) was disconnected before T7 had elapsed since the Deselect.req")
 				} else {
 					e.anomaly("re-Select answered %d", st)
@@ -1307,6 +1310,7 @@ func planT7Desel(rg *rand.Rand) (cfgT, runFn) {
 			for time.Now().Before(end) {
 				if s := e.state(); s != 2 || p.isDead() {
 					e.r.add('S', s, 0, "t7desel-hold")
+					tags = append(tags, "t7desel:verdict")
 					e.failf("check5: a re-Select inside the T7 dwell that followed a Deselect did not keep the session (disconnected within 1.2*T7 of the re-Select, peer idle)")
 					return hdr, tags
 				}
@@ -1327,6 +1331,7 @@ func planT7Desel(rg *rand.Rand) (cfgT, runFn) {
 				e.r.add('S', s, 0, "t7desel-left-NotSelected")
 				if el := now.Sub(tD); el < cfg.t7 {
 					e.note("State()=%d %v after the Deselect.req (TCP-up %v before it)", s, el, tD.Sub(t0).Round(time.Millisecond))
+					tags = append(tags, "t7desel:verdict")
 					e.failf("timer: a deselected session (NotSelected on the same TCP connection) was disconnected before T7 had elapsed since the Deselect.req")
 					return hdr, tags
 				}
@@ -1334,17 +1339,20 @@ func planT7Desel(rg *rand.Rand) (cfgT, runFn) {
 			}
 			if now.After(deadline) {
 				e.note("still NotSelected %v after the Deselect.req", now.Sub(tD))
+				tags = append(tags, "t7desel:verdict")
 				e.failf("timer: T7 never took effect in the not-selected window that followed a Deselect (still NotSelected T7+6s after the Deselect.req, peer silent, link open)")
 				return hdr, tags
 			}
 			time.Sleep(200 * time.Microsecond)
 		}
 		if !p.waitDead(slack) {
+			tags = append(tags, "t7desel:verdict")
 			e.failf("timer: T7 expiry after a Deselect did not close the link")
 			return hdr, tags
 		}
 		if el := p.deadTime().Sub(tD); el < cfg.t7 {
 			e.note("link closed %v after the Deselect.req", el)
+			tags = append(tags, "t7desel:verdict")
 			e.failf("timer: a deselected session (NotSelected on the same TCP connection) was disconnected before T7 had elapsed since the Deselect.req")
 			return hdr, tags
 		}
